@@ -785,6 +785,6 @@ func describeC13(plan []byte) string {
 }
 
 func init() {
-	engines["C13"] = &Engine{ID: "C13", Gen: genC13, Run: runC13, Shrink: shrinkC13, Describe: describeC13, CasesQuick: 1000, InProcessShrink: false}
+	engines["C13"] = &Engine{ID: "C13", Gen: genC13, Run: runC13, Shrink: shrinkC13, Describe: describeC13, CasesQuick: 2000, InProcessShrink: false}
 	raceLogInit()
 }
